@@ -56,6 +56,43 @@ def check(model, rep, tier):
   rep.rule('HYG-BIND', 'parameters bound in, and scope names reserved against, the function\'s own scope', floor=5)
   rep.rule('HYG-BINDER', 'no literal binder next to user identifiers', floor=40)
   rep.rule('HYG-FREE', 'no capturable literal free name', floor=40)
+  rep.rule('HYG-HIDDEN', 'names bound by constructs the scope analysis keeps out of '
+           'its sets (comprehension targets, except-as names) still reach '
+           'Scope.referenced, the set generated names are reserved against', floor=2)
+  act = 'malt/pyct/static_analysis/activity.py'
+  sc = model.cls(act, 'Scope')
+  refp = sc.methods.get('referenced')
+  ref_sets = {n.attr for n in ast.walk(refp.node) if isinstance(n, ast.Attribute) and
+              isinstance(n.value, ast.Name) and n.value.id == 'self' and
+              n.attr not in ('parent', 'referenced')} if refp else set()
+  ts = model.func(act, 'ActivityAnalyzer._track_symbol')
+  comp_ifs = [i for i in ast.walk(ts.node) if isinstance(i, ast.If) and
+              '_Comprehension' in core.norm(i.test) and 'level' in core.norm(i.test)]
+  ok = bool(comp_ifs) and bool(ref_sets)
+  if ok:
+    ok = all(any(isinstance(c, ast.Call) and isinstance(c.func, ast.Attribute) and
+                 c.func.attr == 'add' and isinstance(c.func.value, ast.Attribute) and
+                 c.func.value.attr in ref_sets and core.norm(c.func.value.value) == 'self.scope'
+                 for st in i.body for c in ast.walk(st)) for i in comp_ifs)
+  rep.check(ok, 'HYG-HIDDEN', '%s:comprehension-targets-reserved' % ts.site,
+            'a comprehension target is kept out of every Scope set, so it is not '
+            'in Scope.referenced either: a generated name (fscope, do_return, ...) '
+            'can coincide with it, and generated code inside the comprehension '
+            'then sees the user\'s variable', {'referenced_unions': sorted(ref_sets)},
+            line=ts.node.lineno,
+            witness='return [g(fscope) for fscope in xs]')
+  eh = model.func(act, 'ActivityAnalyzer.visit_ExceptHandler')
+  adds = {c.func.value.attr for c in ast.walk(eh.node) if isinstance(c, ast.Call) and
+          isinstance(c.func, ast.Attribute) and c.func.attr == 'add' and
+          isinstance(c.func.value, ast.Attribute) and
+          core.norm(c.func.value.value) == 'self.scope'}
+  rep.check(bool(adds & ref_sets), 'HYG-HIDDEN', '%s:except-names-reserved' % eh.site,
+            'the name bound by `except E as name` is recorded as isolated only: it '
+            'never reaches Scope.referenced of the function, so a generated name '
+            'can coincide with it', {'recorded_in': sorted(adds),
+                                     'referenced_unions': sorted(ref_sets)},
+            line=eh.node.lineno,
+            witness='except TypeError as do_return: return str(do_return)')
   rep.rule('HYG-SUPPORT', 'the support of a composite state variable contains '
            'every plain name in it (the setter parameter is reserved against '
            'the union of the supports)', floor=3)
